@@ -50,6 +50,7 @@ type Report struct {
 	MemoMisses int         `json:"reference_evaluations"`
 	Hashes     []string    `json:"hashes,omitempty"`
 	Harness    string      `json:"harness_fault,omitempty"`
+	Rule       string      `json:"rule"`
 }
 
 func main() {
@@ -125,7 +126,7 @@ func main() {
 	}
 	start := time.Now()
 	st := work.NewStats()
-	rep := &Report{Property: *prop, Worker: *worker, Race: core.RaceEnabled, Stats: st}
+	rep := &Report{Property: *prop, Worker: *worker, Race: core.RaceEnabled, Stats: st, Rule: p.Rule()}
 	ph := core.MixString(0, *prop)
 	for idx := *first; ; idx++ {
 		if *runs > 0 && idx-*first >= *runs {
@@ -157,7 +158,7 @@ func main() {
 			for ti := range rr.W.Res {
 				for oi := range rr.W.Res[ti] {
 					r := &rr.W.Res[ti][oi]
-					h = core.MixString(h, r.R.Key()+"|"+r.ErrText)
+					h = core.MixString(h, r.R.Key()+"|"+r.ErrKind+fmt.Sprint(r.ErrNil, r.ErrInjected))
 				}
 			}
 			rep.Hashes = append(rep.Hashes, fmt.Sprintf("%d:%016x:%016x:%d:%d", idx, rr.Out.LogHash, h, rr.Out.Races, len(fails)))
